@@ -33,7 +33,7 @@ ASSUMPTIONS = [
     "enumeration order is permuted at the Python os layer (os.listdir / os.scandir); file systems returning different names (normalisation, case folding) are outside the domain",
     "clock frozen with freezegun; host name identical (same process)",
 ]
-BUDGET = {"quick": (160, 4), "thorough": (24000, 16)}
+BUDGET = {"quick": (160, 4), "thorough": (16000, 16)}
 REQUIRED = ["sibling_histories", "ancestor_matches_pattern", "ancestor_ascmhl", "relative_invocation", "trailing_slash", "dot_invocation", "relocated_verify", "ancestor_glob_chars", "case_colliding_siblings", "create_sf", "rename_recorded_with_dr", "two_refused_children", "rename_with_duplicate_content", "relocated_verify_single_file", "sf_run_with_overlapping_selection"]
 
 CFG = {
